@@ -200,6 +200,34 @@ def rule_append(ctx, f):
         ctx.floor("C09-G3", n, 5, "calls on Storage.backend in save")
 
 
+def rule_reserve(ctx, f):
+    ctx.rule("C09-ORDER", "create / promise: the new object number (the length of the table) is reserved by pushing the placeholder before the "
+             "storage is handed to anything else - serialising the object may create nested objects, which must get numbers of their own")
+    n = 0
+    for b in f.bodies.values():
+        im = b.get("impl") or {}
+        if im.get("trait") != "object::Updater" or not im.get("self", "").startswith("file::Storage<") or b["kind"] == "Closure":
+            continue
+        lens = [(bi, t) for bi, t in F.calls(b) if F.callee_name(t) == "xref::XRefTable::len"]
+        pushes = [(bi, t) for bi, t in F.calls(b) if F.callee_name(t) == "xref::XRefTable::push"]
+        if not lens or not pushes:
+            continue
+        n += 1
+        cfg = CFG(b)
+        fl = Flow(b)
+        bad = []
+        for bi, t in F.calls(b):
+            if (bi, t) in lens or (bi, t) in pushes:
+                continue
+            takes_self = any(ty["k"] == "refmut" and "file::Storage<" in ty["s"] for ty in t["arg_tys"])
+            if takes_self and any(cfg.can_reach(l[0], bi) for l in lens) and any(cfg.can_reach(bi, p[0]) for p in pushes):
+                bad.append(t)
+        ctx.check(not bad, "C09-ORDER", b["id"] + "#reserve-first", "the storage is handed to %s between reading the next object number and reserving it: "
+                  "objects created in there get the same number, and one overwrites the other" % ", ".join(sorted({last_seg(F.callee_name(t)) for t in bad})),
+                  bad[0]["span"] if bad else b["span"], detail="refs.len() .. refs.push(Promised) with no &mut Storage call in between")
+    ctx.floor("C09-ORDER", n, 2, "Storage methods that allocate an object number (create, promise)")
+
+
 def run(ctx):
     f = F.load("default")
     ctx.count("bodies", len(f.bodies))
@@ -207,6 +235,7 @@ def run(ctx):
     c12.rule_invalidate(ctx, f, "C09")
     rule_units(ctx, f)
     rule_pair2(ctx, f)
+    rule_reserve(ctx, f)
     rule_identity(ctx, f)
     rule_append(ctx, f)
     adj.rule_framing(ctx, f, "C09")
